@@ -1,8 +1,15 @@
 """C04 teardown order and finalizer: theorems in props/C04.v; real controller on deleting / archived ObjectSets."""
+import json
 import setcheck, setgen, vlib, phasecheck as pc
 
 
 def check(run, tier, seed, replay=None):
+    if replay and "sliced" in json.load(open(replay))["replay"]["scenario"]:
+        import C14
+        vlib.std_proof_stage(run, "C04")
+        vlib.build_harness()
+        C14.sliced_extra(run, tier, seed, "fault", ID_SLICE, replay)
+        return
     setcheck.set_check(run, "C04", tier, seed, replay, 1200, 20000, "judge04",
                        "C04 delete issued before later phases are gone, or finalizer removed / Archived=True reported while objects are still controlled",
                        "seeded random worlds biased to deleting and archived ObjectSets: members with finalizers that delay deletion, "
@@ -10,3 +17,10 @@ def check(run, tier, seed, replay=None):
                        "teardown table x third-party op between read and delete through the real TeardownPhase ('done' only if gone)",
                        phase_judge="judge04p",
                        phase_scs=pc.teardown_table(tier) + pc.random_teardowns(seed + 4, 300 if tier == "quick" else 5000))
+    # additive: objects that live in ObjectSlices (machinery and theorems of C14, props/C14.v C14_teardown_read_fault_inert)
+    import C14
+    C14.sliced_extra(run, tier, seed, "fault", ID_SLICE)
+
+
+ID_SLICE = ("C04 finalizer removed / Archived=True reported / members deleted although a slice of the ObjectSet could not be read "
+            "(read error treated as 'slice gone'): the slice's objects are still there and controlled")
